@@ -294,11 +294,11 @@ func enclosingBlock(fd *ast.FuncDecl, stmt ast.Stmt) []ast.Stmt {
 func ruleAccumulators(prog *Program, rep *Report) {
 	rep.Rules = append(rep.Rules, "N-wrap: every decimal accumulator update X = X*10 + d or X *= 10 on an integer field (gen.Number parts, in gen/number.go and in every inline digit loop of the six front-ends) has an upper bound on X just before the update - an enclosing case/if condition X <= K, a guard earlier in the same block that leaves the loop when X is too big, or a loop-carried check after the update - and that bound excludes uint64 wrap-around: 10*K+9 <= MaxUint64 (10*K for a pure multiply). A digit accumulator X without a bound of its own may borrow the bound of the power-of-ten Y multiplied in the same block (X < Y) only if every update of X anywhere is paired with an update of Y in the same block")
 	type siteRes struct {
-		s    accSite
-		rel  string
-		k    *big.Int
-		inc  bool
-		how  string
+		s   accSite
+		rel string
+		k   *big.Int
+		inc bool
+		how string
 	}
 	var all []*siteRes
 	for _, rel := range []string{"gen", "oj", "sen"} {
@@ -382,9 +382,9 @@ func ruleAccumulators(prog *Program, rep *Report) {
 // ---------------------------------------------------------------- escapes
 
 type escTables struct {
-	str, esc, decode, u string
+	str, esc, decode, u     string
 	strOk, escOk, escU, uOk int64
-	escClause, uClause *ast.CaseClause
+	escClause, uClause      *ast.CaseClause
 }
 
 func readerEscapeTables(m *Machine) (*escTables, error) {
